@@ -570,6 +570,7 @@ func checkC18(c *Ctx) {
 	storageFaults(c, "C18")
 	c18ConcurrentSet(c)
 	c18TempSpellings(c)
+	c18ColonAlias(c)
 	c18StaleTemp(c)
 	c.SetRule("one case = one history (1–60 operations: Set/Get/Delete/KeysWithSuffix/reopen + SaveEntity/EntityWithName/DeleteEntity/Entities) " +
 		"on one fresh directory, over 1–6 keys (incl. keys with ':', aliasing pairs, 200–251 byte keys, arbitrary bytes) and 1–4 entity names " +
